@@ -69,6 +69,10 @@ type genericHelper struct {
 }
 
 func (g *genericHelper) forMapInput() *genericHelper {
+	if g == nil {
+		// a passthrough node whose own type is not inferred yet: the map side does not depend on it
+		g = &genericHelper{}
+	}
 	return &genericHelper{
 		outputStreamFilter:          g.outputStreamFilter,
 		outputConverter:             g.outputConverter,
@@ -93,6 +97,10 @@ func (g *genericHelper) forMapInput() *genericHelper {
 }
 
 func (g *genericHelper) forMapOutput() *genericHelper {
+	if g == nil {
+		// a passthrough node whose own type is not inferred yet: the map side does not depend on it
+		g = &genericHelper{}
+	}
 	return &genericHelper{
 		inputStreamFilter:          g.inputStreamFilter,
 		inputConverter:             g.inputConverter,
